@@ -457,7 +457,7 @@ def r_columns(F, R, cat=None):
         guard_ok = False
         for e in creates:
             for f in facts_at(e.ctx, e.bb):
-                if f[0] in ("Lt", "Le") and "inner" in show(f[1]):
+                if f[0] in ("Lt", "Le", "Gt", "Ge") and ("inner" in show(f[1]) or "inner" in show(f[2])):
                     guard_ok = True
         R.check("R-COLUMNS", b.label(), ok_cell and aligned and ok_row and ret_ok and bool(creates) and guard_ok,
                 construct="cell i -> column i; row of cell indices -> indices; dense index returned unchanged",
